@@ -1910,9 +1910,10 @@ class StringMixin(MonadMixin):
                     index_value = root_translator.fixed_param_values[key]
                 else:
                     index_value = root_translator.vars[key]
-                    if index_value is None:
-                        index_value = 0 if is_start else -1
+                    if index_value is None and is_start:
+                        index_value = 0
                     root_translator.fixed_param_values[key] = index_value
+                if index_value is None: return None  # s[i:None] is the same as s[i:]
                 return ConstMonad.new(index_value)
             return monad
 
@@ -1924,7 +1925,7 @@ class StringMixin(MonadMixin):
             stop = param_to_const(stop, is_start=False)
             start_value = stop_value = None
             if start is None: start_value = 0
-            if stop_value is None: stop_value = -1
+            if stop is None: stop_value = -1
             if isinstance(start, ConstMonad): start_value = start.value
             if isinstance(stop, ConstMonad): stop_value = stop.value
             if start_value == 0 and stop_value == -1:
